@@ -373,7 +373,7 @@ fn apply_op(rep: &mut Rep, bvm: &mut BitVectorMut, m: &mut Vec<bool>, rng: &mut 
     "extend_positions"
 }
 
-pub fn run_history(rep: &mut Rep, h: &HistSpec, unchecked: bool, budget: usize) {
+pub fn run_history(rep: &mut Rep, h: &HistSpec, unchecked: bool, budget: usize, strict_end: bool) {
     let mut rng = Rng::new(h.seed);
     let mut m: Vec<bool> = Vec::new();
     let mut bvm = match rng.below(4) {
@@ -396,10 +396,10 @@ pub fn run_history(rep: &mut Rep, h: &HistSpec, unchecked: bool, budget: usize) 
             observe_light(rep, &bvm, &m, &mut rng);
         }
         if (h.profile == 0 && m.len() <= 300 && step % 3 == 0) || step % full_every == full_every - 1 {
-            observe_full(rep, &bvm, &m, &mut rng, unchecked, budget);
+            observe_full_opt(rep, &bvm, &m, &mut rng, unchecked, budget, strict_end);
         }
     }
-    observe_full(rep, &bvm, &m, &mut rng, unchecked, budget);
+    observe_full_opt(rep, &bvm, &m, &mut rng, unchecked, budget, strict_end);
     rep.gate_max("max_len", m.len() as u64);
     if m.len() > 512 {
         rep.gate_add("histories_crossing_line_boundary", 1);
@@ -411,7 +411,7 @@ pub fn run_history(rep: &mut Rep, h: &HistSpec, unchecked: bool, budget: usize) 
     let c = bvm.clone();
     chk!(rep, "clone==", n, Exp::Is(true), c == bvm);
     let bv: BitVector = BitVector::from(c);
-    observe_full(rep, &bv, &m, &mut rng, unchecked, budget);
+    observe_full_opt(rep, &bv, &m, &mut rng, unchecked, budget, strict_end);
     let back: BitVectorMut = bv.clone().into();
     chk!(rep, "roundtrip_mut->imm->mut ==", n, Exp::Is(true), back == bvm);
     observe_light(rep, &back, &m, &mut rng);
@@ -479,7 +479,7 @@ pub fn hist_specs(cfg: &Cfg) -> Vec<HistSpec> {
     v
 }
 
-pub fn hist_cases(cfg: &Cfg, unchecked: bool) -> Vec<Case> {
+pub fn hist_cases(cfg: &Cfg, unchecked: bool, strict_end: bool) -> Vec<Case> {
     let budget = match cfg.scale {
         Scale::Tiny => 60,
         Scale::Mid => 600,
@@ -491,11 +491,11 @@ pub fn hist_cases(cfg: &Cfg, unchecked: bool) -> Vec<Case> {
             let class = format!("history|profile{}|ops{}", h.profile, h.n_ops / 100 * 100);
             let desc = J::obj().set("seed", h.seed).set("n_ops", h.n_ops).set("profile", h.profile);
             let w = h.n_ops as u64 * if h.profile == 2 { 30 } else { 8 };
-            Case::new("BitVectorMut", class, desc, w, move |rep: &mut Rep| run_history(rep, &h, unchecked, budget))
+            Case::new("BitVectorMut", class, desc, w, move |rep: &mut Rep| run_history(rep, &h, unchecked, budget, strict_end))
         })
         .collect()
 }
 
 pub fn cases_c08(cfg: &Cfg) -> Vec<Case> {
-    hist_cases(cfg, false)
+    hist_cases(cfg, false, true)
 }
